@@ -433,6 +433,124 @@ func c14Dispatch(p *Prog, c *Check) {
 	c.Result(len(missing) == 0, rule, "HandleEvent:exhaustive", p.Rel(he.Pos()), shortFn(he), "type switch over IEvent", "event types without a case in HandleEvent (silently ignored): "+strings.Join(missing, ","), fmt.Sprintf("%d cases", len(covered)))
 }
 
+// effCall is a call made by a codec function itself or by a helper of the same package it delegates
+// to (not a sibling codec). A call through a function-typed parameter of such a helper is named after
+// the function the codec passes for that parameter.
+type effCall struct {
+	fn   *ssa.Function
+	ci   ssa.CallInstruction
+	name string
+}
+
+// funcValueName: the function a value denotes (through method-expression thunks and bound methods).
+func funcValueName(v ssa.Value) string {
+	for {
+		switch x := v.(type) {
+		case *ssa.ChangeType:
+			v = x.X
+			continue
+		case *ssa.MakeClosure:
+			v = x.Fn
+			continue
+		}
+		break
+	}
+	f, ok := v.(*ssa.Function)
+	if !ok {
+		return ""
+	}
+	if f.Synthetic != "" && (strings.HasSuffix(f.Name(), "$thunk") || strings.HasSuffix(f.Name(), "$bound")) {
+		if obj := f.Object(); obj != nil {
+			if fo, isF := obj.(*types.Func); isF {
+				if g := f.Prog.FuncValue(fo); g != nil {
+					return calleeName(g)
+				}
+			}
+		}
+		// the thunk's single static call
+		for _, b := range f.Blocks {
+			for _, in := range b.Instrs {
+				if ci, isC := in.(ssa.CallInstruction); isC {
+					if g := ci.Common().StaticCallee(); g != nil {
+						return calleeName(g)
+					}
+				}
+			}
+		}
+		nm := f.String()
+		nm = strings.TrimSuffix(strings.TrimSuffix(nm, "$thunk"), "$bound")
+		return nm
+	}
+	return calleeName(f)
+}
+
+func isCodecName(nm string) bool {
+	if !strings.Contains(nm, "shutterevents.") {
+		return false
+	}
+	l := lastName2(nm)
+	if _, ok := codecPairs[l]; ok {
+		return true
+	}
+	for _, d := range codecPairs {
+		if d == l {
+			return true
+		}
+	}
+	return false
+}
+
+func effCalls(p *Prog, root *ssa.Function) ([]effCall, []*ssa.Function) {
+	var out []effCall
+	var fns []*ssa.Function
+	seen := map[*ssa.Function]bool{}
+	var walk func(f *ssa.Function, bind map[*ssa.Parameter]string, depth int)
+	walk = func(f *ssa.Function, bind map[*ssa.Parameter]string, depth int) {
+		if seen[f] {
+			return
+		}
+		seen[f] = true
+		fns = append(fns, f)
+		for _, b := range f.Blocks {
+			for _, in := range b.Instrs {
+				ci, ok := in.(ssa.CallInstruction)
+				if !ok {
+					continue
+				}
+				nm := callName(ci)
+				if prm, isP := ci.Common().Value.(*ssa.Parameter); isP && !ci.Common().IsInvoke() {
+					if bn := bind[prm]; bn != "" {
+						nm = bn
+					}
+				}
+				out = append(out, effCall{f, ci, nm})
+				g := ci.Common().StaticCallee()
+				if g == nil || depth >= 2 {
+					continue
+				}
+				g = origin(g)
+				if !inModule(g) || g.Blocks == nil || fnPkgPath(g) != fnPkgPath(root) || isCodecName(calleeName(g)) {
+					continue
+				}
+				nb := map[*ssa.Parameter]string{}
+				for i, a := range ci.Common().Args {
+					if i >= len(g.Params) {
+						break
+					}
+					if fnm := funcValueName(a); fnm != "" {
+						nb[g.Params[i]] = fnm
+					} else if ap, isAP := a.(*ssa.Parameter); isAP && bind[ap] != "" {
+						nb[g.Params[i]] = bind[ap]
+					}
+				}
+				walk(g, nb, depth+1)
+			}
+		}
+	}
+	walk(root, map[*ssa.Parameter]string{}, 0)
+	return out, fns
+}
+
 func c14Leaves(p *Prog, c *Check) {
 	rule := "C14-R4"
 	done := map[string]bool{}
@@ -450,98 +568,185 @@ func c14Leaves(p *Prog, c *Check) {
 		n++
 		c.Analysed(shortFn(ef))
 		c.Analysed(shortFn(df))
-		// library calls of the encoder and their inverses in the decoder
+		// library calls of the encoder (and the helpers it delegates to) and their inverses in the decoder
 		efi, dfi := p.Info(ef), p.Info(df)
+		ecalls, efns := effCalls(p, ef)
+		dcalls, dfns := effCalls(p, df)
+		dfind := func(name string) []effCall {
+			var r []effCall
+			for _, d := range dcalls {
+				if nameMatches(d.name, name) {
+					r = append(r, d)
+				}
+			}
+			return r
+		}
 		var diffs []string
 		var used []string
-		for _, b := range ef.Blocks {
-			for _, in := range b.Instrs {
-				ci, ok := in.(ssa.CallInstruction)
-				if !ok {
-					continue
-				}
-				nm := callName(ci)
-				inv, has := libInverse[nm]
-				if !has {
-					// sibling module codec (encodePubkey inside encodeECIESPublicKey)
-					if i2, ok2 := codecPairs[lastName2(nm)]; ok2 && strings.Contains(nm, "shutterevents.") {
-						if len(callsTo(df, "keyper/shutterevents."+i2)) == 0 {
-							diffs = append(diffs, enc+" uses "+lastName2(nm)+" but "+dec+" does not use "+i2)
-						}
-						used = append(used, lastName2(nm)+"↔"+i2)
-					}
-					continue
-				}
-				dcs := callsTo(df, inv)
-				if len(dcs) == 0 {
-					diffs = append(diffs, fmt.Sprintf("%s calls %s but %s does not call its inverse %s", enc, nm, dec, inv))
-					continue
-				}
-				// constant arguments agree (base, separator, codec object)
-				eargs, dargs := constArgs(efi, ci), constArgs(dfi, dcs[0])
-				for _, ea := range eargs {
-					ok := false
-					for _, da := range dargs {
-						if ea == da {
-							ok = true
-						}
-					}
-					if !ok {
-						diffs = append(diffs, fmt.Sprintf("%s(%s) vs %s(%s): constant arguments differ", nm, strings.Join(eargs, ","), inv, strings.Join(dargs, ",")))
-					}
-				}
-				used = append(used, shortCallee(nm)+"↔"+shortCallee(inv))
+		joins := false
+		for _, e := range ecalls {
+			nm := e.name
+			if nm == "strings.Join" {
+				joins = true
 			}
+			inv, has := libInverse[nm]
+			if !has {
+				// sibling module codec (encodePubkey inside encodeECIESPublicKey)
+				if i2, ok2 := codecPairs[lastName2(nm)]; ok2 && strings.Contains(nm, "shutterevents.") {
+					if len(dfind("keyper/shutterevents."+i2)) == 0 {
+						diffs = append(diffs, enc+" uses "+lastName2(nm)+" but "+dec+" does not use "+i2)
+					}
+					used = append(used, lastName2(nm)+"↔"+i2)
+				}
+				continue
+			}
+			dcs := dfind(inv)
+			if len(dcs) == 0 {
+				diffs = append(diffs, fmt.Sprintf("%s calls %s but %s does not call its inverse %s", enc, nm, dec, inv))
+				continue
+			}
+			// constant arguments agree (base, separator, codec object)
+			eargs, dargs := constArgs(p.Info(e.fn), e.ci), constArgs(p.Info(dcs[0].fn), dcs[0].ci)
+			for _, ea := range eargs {
+				ok := false
+				for _, da := range dargs {
+					if ea == da {
+						ok = true
+					}
+				}
+				if !ok {
+					diffs = append(diffs, fmt.Sprintf("%s(%s) vs %s(%s): constant arguments differ", nm, strings.Join(eargs, ","), inv, strings.Join(dargs, ",")))
+				}
+			}
+			used = append(used, shortCallee(nm)+"↔"+shortCallee(inv))
 		}
 		// list codecs: elements joined by a separator are recovered by splitting only if every element's
 		// encoding is non-empty (otherwise [x] with an empty x and the empty list encode to the same
 		// string) — the element encoder must be one that always emits a prefix or fixed width
-		if len(callsTo(ef, "strings.Join")) > 0 {
-			for _, b := range ef.Blocks {
-				for _, in := range b.Instrs {
-					call, ok := in.(*ssa.Call)
-					if !ok {
+		if joins {
+			for _, f := range efns {
+				ffi := p.Info(f)
+				for _, b := range f.Blocks {
+					for _, in := range b.Instrs {
+						call, ok := in.(*ssa.Call)
+						if !ok {
+							continue
+						}
+						vals, isApp := appendedValues(call)
+						if !isApp || len(vals) != 1 {
+							continue
+						}
+						et := ffi.T(vals[0])
+						en := et.callName()
+						if vc, isC := vals[0].(*ssa.Call); isC {
+							for _, e := range ecalls {
+								if e.ci == ssa.CallInstruction(vc) {
+									en = e.name
+								}
+							}
+						}
+						if !nonEmptyEncoders[en] {
+							diffs = append(diffs, fmt.Sprintf("%s joins element encodings produced by %s, which can be empty: a one-element list holding an empty value and the empty list become indistinguishable", enc, siteTag.ReplaceAllString(et.s, "")))
+						} else {
+							used = append(used, "elements by "+shortCallee(en)+" (never empty)")
+						}
+					}
+				}
+			}
+		}
+		// list codecs: the decoder answers with success before splitting only for the encoding of the
+		// empty list (Join of nothing is ""): any other early success drops a list the encoder can emit
+		if joins {
+			for _, d := range dfind("strings.Split") {
+				g := d.fn
+				gfi := p.Info(g)
+				sc, _ := d.ci.(*ssa.Call)
+				if sc == nil {
+					continue
+				}
+				split := stripConv(gfi.T(sc.Common().Args[0]))
+				for _, r := range returnsOf(g) {
+					nr := len(r.Results)
+					if nr == 0 {
 						continue
 					}
-					vals, isApp := appendedValues(call)
-					if !isApp || len(vals) != 1 {
+					if isErrorType(r.Results[nr-1].Type()) && gfi.errIsNil(r.Results[nr-1], r, 0) == no {
 						continue
 					}
-					et := efi.T(vals[0])
-					if !nonEmptyEncoders[et.callName()] {
-						diffs = append(diffs, fmt.Sprintf("%s joins element encodings produced by %s, which can be empty: a one-element list holding an empty value and the empty list become indistinguishable", enc, siteTag.ReplaceAllString(et.s, "")))
+					if instrDominates(sc, r) {
+						continue
+					}
+					okE := false
+					for _, a := range gfi.FactsAt(r) {
+						if a.Op == "==" && stripConv(a.L).s == split.s && a.R.K == TConst && a.R.s == `""` {
+							okE = true
+						}
+						if (a.Op == "==" || a.Op == "<=") && a.L.K == TLen && stripConv(a.L.Sub[0]).s == split.s && a.R.s == "0" {
+							okE = true
+						}
+					}
+					if !okE {
+						diffs = append(diffs, fmt.Sprintf("%s returns without error before splitting its input on a path not restricted to the empty string (%s): an encoding %s emits for a non-empty list is decoded as another list", shortFn(g), p.siteOf(r), enc))
 					} else {
-						used = append(used, "elements by "+shortCallee(et.callName())+" (never empty)")
+						used = append(used, "early success only for \"\"")
 					}
 				}
 			}
 		}
 		// the encoded string itself is produced by a recognised encoder (a library call this table knows
-		// the inverse of, or a sibling codec): anything else has no decoder counterpart to be compared with
+		// the inverse of, or a sibling codec), directly or through a helper that hands it back: anything
+		// else has no decoder counterpart to be compared with
+		var produced func(v ssa.Value, depth int) bool
+		produced = func(v ssa.Value, depth int) bool {
+			call, isCall := v.(*ssa.Call)
+			if !isCall {
+				return false
+			}
+			cn := callName(call)
+			if _, lib := libInverse[cn]; lib {
+				return true
+			}
+			if _, sib := codecPairs[lastName2(cn)]; sib && strings.Contains(cn, "shutterevents.") {
+				return true
+			}
+			g := call.Common().StaticCallee()
+			if g == nil || depth >= 2 {
+				return false
+			}
+			g = origin(g)
+			if !inModule(g) || g.Blocks == nil || fnPkgPath(g) != fnPkgPath(ef) {
+				return false
+			}
+			for _, r := range returnsOf(g) {
+				if len(r.Results) != 1 || !produced(r.Results[0], depth+1) {
+					return false
+				}
+			}
+			return true
+		}
 		for _, r := range returnsOf(ef) {
-			t := efi.T(r.Results[0])
-			cn := t.callName()
-			_, lib := libInverse[cn]
-			_, sib := codecPairs[lastName2(cn)]
-			if t.K != TCall || !(lib || sib && strings.Contains(cn, "shutterevents.")) {
-				diffs = append(diffs, fmt.Sprintf("%s returns %s, which is not produced by an encoder with a known inverse", enc, siteTag.ReplaceAllString(t.s, "")))
+			if !produced(r.Results[0], 0) {
+				diffs = append(diffs, fmt.Sprintf("%s returns %s, which is not produced by an encoder with a known inverse", enc, siteTag.ReplaceAllString(efi.T(r.Results[0]).s, "")))
 			}
 		}
 		c.Result(len(diffs) == 0, rule, "codec:"+enc+"↔"+dec, p.Rel(df.Pos()), shortFn(df), enc+" ↔ "+dec, strings.Join(diffs, "; "), used...)
 		// decoder error discipline
-		for _, b := range df.Blocks {
-			for _, in := range b.Instrs {
-				call, ok := in.(*ssa.Call)
-				if !ok {
-					continue
+		for _, g := range dfns {
+			for _, b := range g.Blocks {
+				for _, in := range b.Instrs {
+					call, ok := in.(*ssa.Call)
+					if !ok {
+						continue
+					}
+					if _, has := errValueOf(call); !has {
+						continue
+					}
+					res := p.errProp(g, call)
+					c.Result(res.OK, rule+".err", fmt.Sprintf("%s:%s#%d", lastName2(shortFn(g)), shortCallee(callName(call)), ordinalOfCall(g, call)), p.siteOf(call), shortFn(g), "error of "+shortCallee(callName(call)), "decoder swallows a library error (malformed data would be mis-decoded): "+res.Reason, "propagated")
 				}
-				if _, has := errValueOf(call); !has {
-					continue
-				}
-				res := p.errProp(df, call)
-				c.Result(res.OK, rule+".err", fmt.Sprintf("%s:%s#%d", dec, shortCallee(callName(call)), ordinalOfCall(df, call)), p.siteOf(call), shortFn(df), "error of "+shortCallee(callName(call)), "decoder swallows a library error (malformed data would be mis-decoded): "+res.Reason, "propagated")
 			}
 		}
+		_ = dfi
 	}
 	c.Floor(rule, n, 6)
 }
